@@ -19,6 +19,7 @@ def run(chk, F):
     res = chk.guard("panic-site", "K1", lambda: k1.run(chk, F, "C13"))
     if res:
         chk.guard("loop-leaves-on-eof", "parsers", lambda: k1.eof_exits(chk, F, res[1]))
+        chk.guard("loop-progress", "parsers", lambda: k1.loop_progress(chk, F, res[1]))
     chk.guard("cycle-guard", "Resolver::visit", lambda: L.visit_structure(chk, F))
     chk.guard("errors-reported", "load_defs", lambda: L.errors_reported(chk, F))
     chk.guard("temporaries-cleared", "load_defs", lambda: shared_rules.temporaries_cleared(chk, F))
